@@ -34,3 +34,5 @@ for sid in ids:
     meta["ran"] = ran; meta["detected_by"] = sorted({x["check"] for x in ran if x["exit"] == 1})
     json.dump(meta, open(os.path.join(d, "meta.json"), "w"), indent=1)
     print(sid, "detected_by", meta["detected_by"], [(x["check"], x["seed"], x["exit"]) for x in ran])
+# the evidence files written while a seeded change was applied describe the changed tree: put back the committed ones
+sh(f"git -C {ROOT} checkout -- evidence")
